@@ -780,8 +780,16 @@ class X:
                 self.env.pop(t.id, None)
             elif isinstance(t, ast.Subscript) and not isinstance(t.slice, ast.Slice):
                 obj, key = self.eval(t.value), self.eval(t.slice)
-                if not self.contract.delitem_hook(self, obj, key):
-                    raise Unsupported('del of an item the contract does not model')
+                if self.contract.delitem_hook(self, obj, key):
+                    continue
+                if isinstance(obj, VMap):
+                    # del d[k]: KeyError when absent, otherwise the entry is gone
+                    k = obj.kunwrap(key)
+                    if not self.decide(z3.Select(obj.has, k)):
+                        self.raise_(KeyError, 'key')
+                    obj.has = z3.Store(obj.has, k, z3.BoolVal(False))
+                    continue
+                raise Unsupported('del of an item the contract does not model')
             else:
                 raise Unsupported('del of non-name')
 
